@@ -24,7 +24,9 @@ CONSTANTS Buckets,     \* set of bucket identifiers (strings)
           Names,       \* set of object names: Seq(Seq(char))
           Datas,       \* set of data identifiers
           Prefixes,    \* set of listing prefixes: Seq(char)
-          MaxOps       \* bound on the length of a behaviour (exhaustive runs)
+          MaxOps,      \* bound on the length of a behaviour (exhaustive runs)
+          Styles,      \* the ways a caller can write an object (see WriteStyles)
+          EmptyData    \* the data identifier that stands for the empty byte string
 
 VARIABLES objs,        \* [Buckets -> [some subset of Names -> Datas]]
           res,         \* result of the last operation
@@ -76,7 +78,20 @@ Usable(b, n) == \A m \in Stored(b) : ~Conflict(n, m)
 NotExist == [ok |-> FALSE, data |-> ""]
 Found(d) == [ok |-> TRUE, data |-> d]
 Res(kind, ok, data, names) == [kind |-> kind, ok |-> ok, data |-> data, names |-> names]
-Op(op, b, n, d, p) == [op |-> op, b |-> b, name |-> n, data |-> d, prefix |-> p]
+Op(op, b, n, d, p, s) == [op |-> op, b |-> b, name |-> n, data |-> d, prefix |-> p, style |-> s]
+
+(* How the bytes reach the object is not the property's business: an object  *)
+(* exists, with exactly the bytes written, as soon as its writer is closed,  *)
+(* whether the caller                                                        *)
+(*   "write"   called Write (one or more times, possibly with no bytes),     *)
+(*   "nowrite" opened the writer and closed it without any Write call (what  *)
+(*             an encoder loop over zero items or io.Copy from an empty      *)
+(*             source does) -- possible for the empty byte string only --,   *)
+(*   "copy"    copied another object with storage.Copy.                      *)
+(* In particular an EMPTY object is an object: it reads back as zero bytes,  *)
+(* not as not-exist, is listed, and replaces what was there before.          *)
+WriteStyles == {"write", "nowrite", "copy"}
+StyleOK(s, d) == s \in WriteStyles /\ (s = "nowrite" => d = EmptyData)
 
 (* ---- pure result functions (also used by the trace module) -------------- *)
 ReadResult(o, b, n) == IF n \in DOMAIN o[b] THEN Found(o[b][n]) ELSE NotExist
@@ -85,25 +100,26 @@ WriteEffect(o, b, n, d) == [o EXCEPT ![b] = Put(@, n, d)]
 
 Init == /\ objs = [b \in Buckets |-> <<>>]
         /\ res = Res("init", TRUE, "", {})
-        /\ last = Op("init", "", <<>>, "", <<>>)
+        /\ last = Op("init", "", <<>>, "", <<>>, "")
         /\ hist = <<>>
 
-Write(b, n, d) == /\ Usable(b, n)
-                  /\ objs' = WriteEffect(objs, b, n, d)
-                  /\ res' = Res("write", TRUE, "", {})
-                  /\ last' = Op("write", b, n, d, <<>>)
-                  /\ hist' = Append(hist, [b |-> b, name |-> n, data |-> d])
+Write(b, n, d, s) == /\ Usable(b, n)
+                     /\ StyleOK(s, d)
+                     /\ objs' = WriteEffect(objs, b, n, d)
+                     /\ res' = Res("write", TRUE, "", {})
+                     /\ last' = Op("write", b, n, d, <<>>, s)
+                     /\ hist' = Append(hist, [b |-> b, name |-> n, data |-> d])
 
 Read(b, n) == /\ Usable(b, n)
               /\ res' = Res("read", ReadResult(objs, b, n).ok, ReadResult(objs, b, n).data, {})
-              /\ last' = Op("read", b, n, "", <<>>)
+              /\ last' = Op("read", b, n, "", <<>>, "")
               /\ UNCHANGED <<objs, hist>>
 
 List(b, p) == /\ res' = Res("list", TRUE, "", ListResult(objs, b, p))
-              /\ last' = Op("list", b, <<>>, "", p)
+              /\ last' = Op("list", b, <<>>, "", p, "")
               /\ UNCHANGED <<objs, hist>>
 
-Next == \/ \E b \in Buckets, n \in Names, d \in Datas : Write(b, n, d)
+Next == \/ \E b \in Buckets, n \in Names, d \in Datas, s \in Styles : Write(b, n, d, s)
         \/ \E b \in Buckets, n \in Names : Read(b, n)
         \/ \E b \in Buckets, p \in Prefixes : List(b, p)
 
@@ -115,7 +131,7 @@ Bounded == Len(hist) <= MaxOps   \* state constraint of the exhaustive runs
 (* exhaustive runs therefore treat read / list states as leaves.             *)
 NextBfs == /\ last.op \notin {"read", "list"}
            /\ \/ /\ Len(hist) < MaxOps
-                 /\ \E b \in Buckets, n \in Names, d \in Datas : Write(b, n, d)
+                 /\ \E b \in Buckets, n \in Names, d \in Datas, s \in Styles : Write(b, n, d, s)
               \/ \E b \in Buckets, n \in Names : Read(b, n)
               \/ \E b \in Buckets, p \in Prefixes : List(b, p)
 SpecBfs == Init /\ [][NextBfs]_vars
